@@ -32,6 +32,7 @@ def run(chk):
     chk.assumptions = ["the marker lines are written with eprintln so that a full stdout cannot hide them",
                        "EACCES needs the child to drop privileges to uid nobody; when that is impossible the rows are reported as not exercised"]
     chk.floor = 60
+    chk.rule += '; plus standard input that is a directory for every reader of stdin, records whose captured length exceeds the snap length while the wire length does not (files and stdin streams)'
     work = core.scratch_dir()
     os.chmod(work, 0o755)
     try:
@@ -177,6 +178,18 @@ def run(chk):
             ("pcap_read_next", "truncated-record-is-null-or-error", "pcap_read_next(pcap_open(%s))" % lit(trunc), {"either": True}),
             ("write", "healthy", "write(open(%s, \"w\"), \"ok\")" % lit(os.path.join(work, "out.txt")), {}),
         ]
+        # standard input that cannot be read (a directory, a closed descriptor) for every reader of stdin; records whose
+        # captured length exceeds the snap length while the wire length does not (and the other way round)
+        M += [("read", "EISDIR-stdin", "read(stdin)", {"stdin_dir": adir}), ("read", "EISDIR-stdin-n", "read(stdin, 10)", {"stdin_dir": adir}),
+              ("read_line", "EISDIR-stdin", "read_line(stdin)", {"stdin_dir": adir}), ("pcap_stream", "EISDIR-stdin", "pcap_stream(stdin)", {"stdin_dir": adir})]      # (a closed descriptor 0 is not such a case: the Rust runtime reports it to the program as end of input)
+        for nm, rec in (("caplen>snaplen>=wirelen", pkt.pcap_record(1, 2, b"z" * 60, 131072, 60)), ("caplen>snaplen>=wirelen-short", pkt.pcap_record(1, 2, b"z" * 5, 200, 5)),
+                        ("caplen>snaplen-wirelen-0", pkt.pcap_record(1, 2, b"z" * 120, 120, 0))):
+            blob = pkt.pcap_header(snaplen=100) + rec
+            fpath = os.path.join(work, "rec-%d.pcap" % len(M))
+            open(fpath, "wb").write(blob)
+            M += [("pcap_read_next", nm + "-on-stdin", "pcap_read_next(pcap_stream(stdin))", {"stdin": blob}),
+                  ("pcap_read_all", nm + "-on-stdin", "pcap_read_all(pcap_stream(stdin))", {"stdin": blob}),
+                  ("pcap_read_next", nm, "pcap_read_next(pcap_open(%s))" % lit(fpath), {}), ("pcap_read_all", nm, "pcap_read_all(pcap_open(%s))" % lit(fpath), {})]
         script = os.path.join(work, "s.p2")
         os.chmod(work, 0o755)
 
@@ -192,6 +205,9 @@ def run(chk):
                 stdin_data = env["stdin"]
             elif env.get("stdin") == "closed":
                 kw["stdin_file"] = None
+            elif env.get("stdin_dir"):
+                fin = os.open(env["stdin_dir"], os.O_RDONLY)
+                kw["stdin_file"] = fin
             if env.get("stdout") == "epipe":
                 rfd, wfd = os.pipe()
                 os.close(rfd)
@@ -219,6 +235,8 @@ def run(chk):
                 rr = core.run_binary([script], stdin_data=stdin_data, release=release, timeout=30, preexec_fn=pre, **kw)
             if fout:
                 fout.close()
+            if fin is not None:
+                os.close(fin)
             return rr
 
         can_drop = True
